@@ -8,7 +8,13 @@ import (
 func (p *Pool) Send(ctx context.Context, e Event) {
 	e.ctx = ctx
 
+	p.stopM.RLock()
+	if p.stopped {
+		p.stopM.RUnlock()
+		return
+	}
 	p.sendWg.Add(1)
+	p.stopM.RUnlock()
 	defer p.sendWg.Done()
 
 	if p.ctx.Err() != nil {
